@@ -55,19 +55,28 @@ Proof.
   pose proof (tick_outs c h now d) as F. rewrite Forall_forall in F. auto.
 Qed.
 
+(* all that the proofs below use about the state after the implicit tick; the theorems are proved
+   for an arbitrary such state ([..._gen]) so that the body of fire_due is never exposed to the
+   unifier or the kernel's conversion *)
+Definition AfterTick (h : hstate) (s0 : st) : Prop :=
+  SessD h (hs s0) /\ SessF h (hs s0) /\ Forall quiet_out (outs s0) /\
+  incl (challenges (hs s0)) (challenges h).
+Lemma tick_after c h now d : AfterTick h (tick c h now d).
+Proof.
+  split; [apply tick_SessD | split; [apply tick_SessF | split; [apply tick_outs | apply tick_chall_incl]]].
+Qed.
+
+Lemma step_inv c h e now d h' out :
+  step c h e now d = (h', out) ->
+  h' = hs (dispatch c (tick c h now d) e now) /\ out = outs (dispatch c (tick c h now d) e now).
+Proof. rewrite step_eq. intros H. inversion H. split; reflexivity. Qed.
+
 Lemma outs_after (P : output -> Prop) s0 s' o :
   Forall quiet_out (outs s0) -> OutsExt P s0 s' -> In o (outs s') -> quiet_out o \/ P o.
 Proof.
   intros F HO Hin. destruct (OutsExt_In _ _ _ _ HO Hin) as [H | H]; [left | right; exact H].
   rewrite Forall_forall in F. auto.
 Qed.
-
-(* collect what is known about the state after the implicit tick, then forget how it was computed
-   (the body of fire_due must never be exposed to the unifier) *)
-Ltac tick_facts c h now d s0 TD TF TO TI :=
-  pose proof (tick_SessD c h now d) as TD; pose proof (tick_SessF c h now d) as TF;
-  pose proof (tick_outs c h now d) as TO; pose proof (tick_chall_incl c h now d) as TI;
-  set (s0 := tick c h now d) in *; clearbody s0.
 
 (* ------------------------------------------------------------------------------------------ *)
 (* well-formed events: the service answers HandlerOut::WhoAreYou(node_address) with the record it
@@ -102,10 +111,9 @@ Proof.
   - apply (tick_chall c h now d (fun l => NoDup (chall_keys l))); [apply chall_closed_NoDup | exact H2].
 Qed.
 
-Lemma step_ChallInv c h e now d : ev_wf e -> ChallInv h -> ChallInv (fst (step c h e now d)).
+Lemma dispatch_ChallInv c s0 e now : ev_wf e -> ChallInv (hs s0) -> ChallInv (hs (dispatch c s0 e now)).
 Proof.
-  intros Hwf Hinv. rewrite step_eq. cbn [fst].
-  pose proof (ChallInv_tick c h now d Hinv) as H0. set (s0 := tick c h now d) in *. clearbody s0.
+  intros Hwf H0.
   destruct e as [ct rid body | na rid rb | na n known | from p |]; cbn [dispatch].
   - pose proof (Quiet_send_request c s0 ct true rid body now) as [[E _] _].
     destruct (send_request c s0 ct true rid body now) as [s1 ok]. cbn [fst] in E.
@@ -138,6 +146,12 @@ Proof.
         -- destruct H as [E _]. eapply ChallInv_remove; [exact E | exact H0].
       * rewrite H. exact H0.
   - exact H0.
+Qed.
+
+Lemma step_ChallInv c h e now d : ev_wf e -> ChallInv h -> ChallInv (fst (step c h e now d)).
+Proof.
+  intros Hwf Hinv. rewrite step_eq. cbn [fst]. apply dispatch_ChallInv; [exact Hwf |].
+  apply ChallInv_tick. exact Hinv.
 Qed.
 
 (* invariants along runs *)
@@ -183,17 +197,17 @@ Proof.
   exact (H3 se H4 (H5 k H2)).
 Qed.
 
-Theorem incoming_identity c h from src n aad sg eph eph_ok rec ct now d h' out :
+Lemma incoming_identity_gen c h s0 from src n aad sg eph eph_ok rec ct now h' out :
+  AfterTick h s0 ->
   fix_d1 c = true -> ChallOK h ->
-  step c h (EvInbound from (PHs src n aad sg eph eph_ok rec ct)) now d = (h', out) ->
+  h' = hs (handle_auth_message c s0 (src, from) n aad sg eph eph_ok rec ct now) ->
+  out = outs (handle_auth_message c s0 (src, from) n aad sg eph eph_ok rec ct now) ->
   (exists o, In o out /\ attributing o) \/ session_changed h h' ->
   exists ch deadline,
     In ((src, from), ch, deadline) (challenges h) /\
     sg = Sig src (ch_cd ch) eph (cfg_local c) /\ eph_ok = true.
 Proof.
-  intros Hfix Hok. rewrite step_eq. cbn [dispatch]. intros Hstep Heff.
-  inversion Hstep as [[Eh Eo]]. clear Hstep.
-  tick_facts c h now d s0 TD TF TO TI.
+  intros [TD [TF [TO TI]]] Hfix Hok Eh Eo Heff. symmetry in Eh, Eo.
   pose proof (handle_auth_message_frame c s0 (src, from) n aad sg eph eph_ok rec ct now) as H.
   cbn zeta in H.
   assert (Hnone : forall s', hs s' = h' -> outs s' = out -> SessD (hs s0) (hs s') ->
@@ -222,17 +236,28 @@ Proof.
     + apply OutsExt_refl.
 Qed.
 
-(* Established(Incoming) is reported with a record of the claimed id: the record verified is X's *)
-Theorem incoming_established_id c h from src n aad sg eph eph_ok rec ct now d h' out e a nid :
+Theorem incoming_identity c h from src n aad sg eph eph_ok rec ct now d h' out :
   fix_d1 c = true -> ChallOK h ->
   step c h (EvInbound from (PHs src n aad sg eph eph_ok rec ct)) now d = (h', out) ->
+  (exists o, In o out /\ attributing o) \/ session_changed h h' ->
+  exists ch deadline,
+    In ((src, from), ch, deadline) (challenges h) /\
+    sg = Sig src (ch_cd ch) eph (cfg_local c) /\ eph_ok = true.
+Proof.
+  intros Hfix Hok Hstep. apply step_inv in Hstep. destruct Hstep as [Eh Eo].
+  eapply incoming_identity_gen; [apply (tick_after c h now d) | exact Hfix | exact Hok | exact Eh | exact Eo].
+Qed.
+
+(* Established(Incoming) is reported with a record of the claimed id: the record verified is X's *)
+Lemma incoming_established_id_gen c h s0 from src n aad sg eph eph_ok rec ct now out e a nid :
+  AfterTick h s0 ->
+  fix_d1 c = true -> ChallOK h ->
+  out = outs (handle_auth_message c s0 (src, from) n aad sg eph eph_ok rec ct now) ->
   In (OEvent (HEstablished e a true)) out \/ In (OEvent (HUnverifiable e a nid)) out ->
   a = from /\ (In (OEvent (HUnverifiable e a nid)) out -> nid = src) /\
   (In (OEvent (HEstablished e a true)) out -> e_id e = src).
 Proof.
-  intros Hfix Hok. rewrite step_eq. cbn [dispatch]. intros Hstep Hin.
-  inversion Hstep as [[Eh Eo]]. clear Hstep.
-  tick_facts c h now d s0 TD TF TO TI.
+  intros [TD [TF [TO TI]]] Hfix Hok Eo Hin. symmetry in Eo.
   pose proof (handle_auth_message_frame c s0 (src, from) n aad sg eph eph_ok rec ct now) as H.
   cbn zeta in H.
   assert (Hnone : forall s', outs s' = out -> OutsExt failed_out s0 s' -> False).
@@ -275,6 +300,17 @@ Proof.
   - exfalso. destruct H as [_ [_ HO]]. eapply Hnone; eauto.
 Qed.
 
+Theorem incoming_established_id c h from src n aad sg eph eph_ok rec ct now d h' out e a nid :
+  fix_d1 c = true -> ChallOK h ->
+  step c h (EvInbound from (PHs src n aad sg eph eph_ok rec ct)) now d = (h', out) ->
+  In (OEvent (HEstablished e a true)) out \/ In (OEvent (HUnverifiable e a nid)) out ->
+  a = from /\ (In (OEvent (HUnverifiable e a nid)) out -> nid = src) /\
+  (In (OEvent (HEstablished e a true)) out -> e_id e = src).
+Proof.
+  intros Hfix Hok Hstep. apply step_inv in Hstep. destruct Hstep as [_ Eo].
+  eapply incoming_established_id_gen; [apply (tick_after c h now d) | exact Hfix | exact Hok | exact Eo].
+Qed.
+
 (* every event other than an inbound WHOAREYOU / handshake packet: no session is created or re-keyed,
    counters do not decrease *)
 Definition creates_sessions (e : event) : bool :=
@@ -283,11 +319,10 @@ Definition creates_sessions (e : event) : bool :=
   | _ => false
   end.
 
-Theorem only_handshakes_create_sessions c h e now d :
-  creates_sessions e = false -> SessD h (fst (step c h e now d)).
+Lemma dispatch_SessD c s0 e now :
+  creates_sessions e = false -> SessD (hs s0) (hs (dispatch c s0 e now)).
 Proof.
-  intros He. rewrite step_eq. cbn [fst]. eapply SessD_trans; [apply tick_SessD |].
-  set (s0 := tick c h now d). clearbody s0.
+  intros He.
   destruct e as [ct rid body | na rid rb | na n known | from p |]; cbn [dispatch].
   - pose proof (Quiet_send_request c s0 ct true rid body now) as [[_ D] _].
     destruct (send_request c s0 ct true rid body now) as [s1 ok]. cbn [fst] in D. destruct ok; exact D.
@@ -296,6 +331,13 @@ Proof.
   - destruct p as [src n aad ct | n idn seq cd | src n aad sg eph eph_ok rec ct]; try discriminate.
     pose proof (handle_message_frame c s0 (src, from) n aad ct now) as [[_ D] _]. exact D.
   - apply SessD_refl.
+Qed.
+
+Theorem only_handshakes_create_sessions c h e now d :
+  creates_sessions e = false -> SessD h (fst (step c h e now d)).
+Proof.
+  intros He. rewrite step_eq. cbn [fst]. eapply SessD_trans; [apply tick_SessD |].
+  apply dispatch_SessD. exact He.
 Qed.
 
 (* in particular an ordinary message packet never creates a session *)
@@ -315,10 +357,9 @@ Theorem delivered_needs_session c h from src n aad ct now d h' out o :
   step c h (EvInbound from (PMsg src n aad ct)) now d = (h', out) -> In o out ->
   quiet_out o \/ msg_out_ok (hs (tick c h now d)) (src, from) n aad ct o.
 Proof.
-  rewrite step_eq. cbn [dispatch]. intros Hstep Hin. inversion Hstep as [[Eh Eo]]. clear Hstep.
-  tick_facts c h now d s0 TD TF TO TI.
-  pose proof (handle_message_frame c s0 (src, from) n aad ct now) as [_ HO].
-  rewrite <- Eo in Hin. exact (outs_after _ s0 _ o TO HO Hin).
+  intros Hstep Hin. apply step_inv in Hstep. destruct Hstep as [_ Eo].
+  pose proof (handle_message_frame c (tick c h now d) (src, from) n aad ct now) as [_ HO].
+  rewrite Eo in Hin. exact (outs_after _ _ _ o (tick_outs c h now d) HO Hin).
 Qed.
 
 Corollary request_delivered c h from src n aad ct now d h' out na rid body :
@@ -408,6 +449,50 @@ Qed.
 
 (* the step relation on sessions: every session of h' descends from one of h under the same node
    address, except that a WHOAREYOU / handshake packet may install the keys of [se] under [na] *)
+Lemma dispatch_sessions c h s0 e now :
+  AfterTick h s0 ->
+  let h' := hs (dispatch c s0 e now) in
+  SessD h h' \/
+  exists na se, SessN na se h h' /\ s_counter se = 0 /\ s_old se = None /\
+    exists eph cd,
+      (s_dec se = mk_key eph (cfg_local c) cd (fst na) (cfg_local c) false /\
+       s_enc se = mk_key eph (cfg_local c) cd (fst na) (cfg_local c) true /\
+       exists from src n aad sg ok rec ct ch,
+         e = EvInbound from (PHs src n aad sg eph ok rec ct) /\ na = (src, from) /\
+         chall_get na (challenges (hs s0)) = Some ch /\ cd = ch_cd ch /\
+         exists e0, establish c src ch sg eph ok rec = EstOk se e0)
+      \/
+      (s_enc se = mk_key eph (fst na) cd (cfg_local c) (fst na) false /\
+       s_dec se = mk_key eph (fst na) cd (cfg_local c) (fst na) true /\
+       exists from n idn seq, e = EvInbound from (PWho n idn seq cd)).
+Proof.
+  intros [TD [TF [TO TI]]]. cbn zeta. destruct (creates_sessions e) eqn:Ec.
+  2:{ left. eapply SessD_trans; [exact TD | apply dispatch_SessD; exact Ec]. }
+  destruct e as [| | | from p |]; try discriminate.
+  destruct p as [| n idn seq cd | src n aad sg eph eph_ok rec ct]; try discriminate.
+  - cbn [dispatch].
+    destruct (handle_challenge_frame c s0 from n seq cd now) as [[_ D] | [ct [eph [aw [E HN]]]]].
+    + left. eapply SessD_trans; [exact TD | exact D].
+    + right. eexists. eexists. split; [eapply SessD_F_N; [exact TD | exact TF | exact HN] |].
+      split; [reflexivity | split; [reflexivity |]]. exists eph, cd. right.
+      split; [reflexivity | split; [reflexivity |]]. eauto.
+  - cbn [dispatch].
+    pose proof (handle_auth_message_frame c s0 (src, from) n aad sg eph eph_ok rec ct now) as H.
+    cbn zeta in H. destruct (chall_get (src, from) (challenges (hs s0))) as [ch |] eqn:Eg.
+    + destruct (establish c (fst (src, from)) ch sg eph eph_ok rec) as [se e0 | |] eqn:Ee.
+      * destruct H as [s4 [_ [HN [_ [_ [[_ D] _]]]]]]. right. exists (src, from), se.
+        destruct (establish_session _ _ _ _ _ _ _ _ _ Ee) as [Ese _].
+        split; [eapply SessD_F_N; [exact TD | exact TF | eapply SessN_D; eauto] |].
+        rewrite Ese at 1 2. split; [reflexivity | split; [reflexivity |]].
+        exists eph, (ch_cd ch). left. rewrite Ese at 1 2. cbn [s_dec s_enc fst].
+        split; [reflexivity | split; [reflexivity |]].
+        exists from, src, n, aad, sg, eph_ok, rec, ct, ch. cbn [fst] in Ee. eauto 10.
+      * left. rewrite H. exact TD.
+      * left. destruct H as [_ [D _]]. eapply SessD_trans; [exact TD | exact D].
+    + left. rewrite H. exact TD.
+Qed.
+
+(* the same for a step; [tick c h now d] is the state after the implicit tick *)
 Lemma step_sessions c h e now d :
   let h' := fst (step c h e now d) in
   SessD h h' \/
@@ -424,30 +509,7 @@ Lemma step_sessions c h e now d :
        s_dec se = mk_key eph (fst na) cd (cfg_local c) (fst na) true /\
        exists from n idn seq, e = EvInbound from (PWho n idn seq cd)).
 Proof.
-  cbn zeta. destruct (creates_sessions e) eqn:Ec.
-  2:{ left. apply only_handshakes_create_sessions. exact Ec. }
-  destruct e as [| | | from p |]; try discriminate.
-  destruct p as [| n idn seq cd | src n aad sg eph eph_ok rec ct]; try discriminate.
-  - rewrite step_eq. cbn [fst dispatch]. tick_facts c h now d s0 TD TF TO TI.
-    destruct (handle_challenge_frame c s0 from n seq cd now) as [[_ D] | [ct [eph [aw [E HN]]]]].
-    + left. eapply SessD_trans; [exact TD | exact D].
-    + right. eexists. eexists. split; [eapply SessD_F_N; [exact TD | exact TF | exact HN] |].
-      split; [reflexivity | split; [reflexivity |]]. exists eph, cd. right.
-      split; [reflexivity | split; [reflexivity |]]. eauto.
-  - rewrite step_eq. cbn [fst dispatch]. tick_facts c h now d s0 TD TF TO TI.
-    pose proof (handle_auth_message_frame c s0 (src, from) n aad sg eph eph_ok rec ct now) as H.
-    cbn zeta in H. destruct (chall_get (src, from) (challenges (hs s0))) as [ch |] eqn:Eg.
-    + destruct (establish c (fst (src, from)) ch sg eph eph_ok rec) as [se e0 | |] eqn:Ee.
-      * destruct H as [s4 [_ [HN [_ [_ [[_ D] _]]]]]]. right. exists (src, from), se.
-        destruct (establish_session _ _ _ _ _ _ _ _ _ Ee) as [Ese _].
-        split; [eapply SessD_F_N; [exact TD | exact TF | eapply SessN_D; eauto] |].
-        rewrite Ese at 1 2. split; [reflexivity | split; [reflexivity |]].
-        exists eph, (ch_cd ch). left. rewrite Ese at 1 2. cbn [s_dec s_enc fst].
-        split; [reflexivity | split; [reflexivity |]].
-        exists from, src, n, aad, sg, eph_ok, rec, ct, ch. cbn [fst] in Ee. eauto 10.
-      * left. rewrite H. exact TD.
-      * left. destruct H as [_ [D _]]. eapply SessD_trans; [exact TD | exact D].
-    + left. rewrite H. exact TD.
+  cbn zeta. rewrite step_eq. cbn [fst]. apply dispatch_sessions. apply tick_after.
 Qed.
 
 Theorem step_KeyInv c h e now d : KeyInv c h -> KeyInv c (fst (step c h e now d)).
